@@ -5,7 +5,7 @@ from bibtexparser.library import Library
 from bibtexparser.middlewares import NormalizeFieldKeys, SortFieldsAlphabeticallyMiddleware, SortFieldsCustomMiddleware
 from bibtexparser.model import Entry, ExplicitComment, Field, String
 
-from .. import harness
+from .. import harness, libgen
 from ..compare import canon
 
 PROP = "C17"
@@ -70,7 +70,7 @@ def o_fields(inp):
     fields, entry, blocks = _mk(inp)
     lib = Library(blocks)
     others_before = [canon(b) for b in blocks if b is not entry]
-    out = mw.transform(lib)
+    out = libgen.maybe_preuse(mw, inp["keys"]).transform(lib)
     if len(out.blocks) != 4:
         return (("block-count", repr(out.blocks), "4 blocks"), True, cls)
     e = out.blocks[1]
